@@ -14,6 +14,16 @@ ENUMERATED (deterministic decision "which clock id"): {dynamic PIE, static, stat
 the thorough tier] x 6 entry points x {vDSO path, fallback with the vDSO pointer forced to None}.
 SAMPLED (real time): N readings per cell, each between two clock_gettime system calls.
 
+SYNTHETIC-IMAGE dimension (the kernel's own vDSO is ONE image; whether the lookup code calls the address
+the symbol table states depends on where the function sits): the static and static-PIE debug binaries are
+also started through engines/probe-clock/synth/loader.c -- a user-space exec that differs from the kernel's
+only in the value of AT_SYSINFO_EHDR -- against vDSO-shaped images built from synth/fakevdso.S/.lds with
+__vdso_clock_gettime (the real system call) at 0x1000 / 0x1010 / 0x1020 / 0x1030 and a .text whose
+sh_addralign is 16 / 32 / 64, every neighbouring 16-byte slot holding a decoy that answers
+{0x7dec00kk s, 0 ns}; plus one run per binary through the loader with the kernel's own image (control:
+the loader is transparent).  Same oracle, same keys.  Loader and images are cached under
+/verif/target/probe-clock/synth (they do not depend on the repository).
+
 Judged (statement C19: "successive readings of the monotonic clock never decrease"): every reading of
 MonotonicInstant::now / Instant::now / MonotonicInstant::elapsed / Instant::elapsed must lie between the
 kernel's CLOCK_MONOTONIC readings before and after it.  The SystemTime entry points are sandwiched by
@@ -52,6 +62,16 @@ QUICK_CONFIGS = [(m, "debug") for m, _ in MODES]
 THOROUGH_CONFIGS = QUICK_CONFIGS + [(m, "release") for m, _ in MODES]
 N_QUICK = 10_000
 N_THOROUGH = 100_000
+N_SYNTH_QUICK = 2_000
+N_SYNTH_THOROUGH = 20_000
+SYNTH_SRC = os.path.join(PROBE_SRC, "synth")
+SYNTH_DIR = os.path.join(TARGET_ROOT, "synth")
+SYNTH_TEXT_START = 0xFC0          # fakevdso.lds
+SYNTH_SLOTS = [4, 5, 6, 7]        # 0x1000, 0x1010, 0x1020, 0x1030
+SYNTH_ALIGNS = [16, 32, 64]
+SYNTH_MODES = ["static", "staticpie"]
+SYNTH_LDFLAGS = ["-shared", "-nostdlib", "-Wl,-soname=linux-vdso.so.1", "-Wl,--hash-style=both", "-Wl,-z,max-page-size=4096",
+                 "-Wl,--build-id=none"]
 RUN_TIMEOUT = 120.0
 
 ENTRIES = ["MonotonicInstant::now", "Instant::now", "MonotonicInstant::elapsed", "Instant::elapsed",
@@ -176,6 +196,79 @@ def _vdso_slot_delta(path):
     return None
 
 
+# --------------------------------------------------------------------------- synthetic vDSO images
+
+def _elf_facts(path):
+    """(st_value of __vdso_clock_gettime in .dynsym, sh_addralign of .text) of a vDSO-shaped image"""
+    data = open(path, "rb").read()
+    e_shoff, = struct.unpack_from("<Q", data, 0x28)
+    e_shentsize, e_shnum, e_shstrndx = struct.unpack_from("<HHH", data, 0x3A)
+    secs = [struct.unpack_from("<IIQQQQIIQQ", data, e_shoff + i * e_shentsize) for i in range(e_shnum)]
+    shstr = secs[e_shstrndx][4]
+    value = align = None
+    for s_ in secs:
+        name = data[shstr + s_[0]:data.index(b"\0", shstr + s_[0])]
+        if name == b".text":
+            align = s_[8]
+        if s_[1] == 11:  # SHT_DYNSYM
+            stro = secs[s_[6]][4]
+            for off in range(s_[4], s_[4] + s_[5], 24):
+                st_name, _i, _o, _x, st_value, _sz = struct.unpack_from("<IBBHQQ", data, off)
+                if data[stro + st_name:data.index(b"\0", stro + st_name)] == b"__vdso_clock_gettime":
+                    value = st_value
+    return value, align
+
+
+def synth_name(slot, align):
+    return f"synthetic-vdso(clock_gettime@{SYNTH_TEXT_START + 16 * slot:#x},.text-align={align})"
+
+
+def synth_build():
+    """Loader + the 12 images, cached under SYNTH_DIR keyed by a hash of their sources.  Returns
+    (loader path, [(slot, align, image path)]) or a string saying why it could not be built."""
+    import hashlib
+    srcs = ["loader.c", "fakevdso.S", "fakevdso.lds"]
+    h = hashlib.sha256()
+    for f in srcs:
+        h.update(open(os.path.join(SYNTH_SRC, f), "rb").read())
+    h.update(repr((SYNTH_LDFLAGS, SYNTH_SLOTS, SYNTH_ALIGNS)).encode())
+    stamp = os.path.join(SYNTH_DIR, "stamp")
+    loader = os.path.join(SYNTH_DIR, "loader")
+    images = [(k, a, os.path.join(SYNTH_DIR, f"vdso-{k}-{a}.so")) for a in SYNTH_ALIGNS for k in SYNTH_SLOTS]
+    fresh = (os.path.exists(stamp) and open(stamp).read() == h.hexdigest() and os.path.exists(loader)
+             and all(os.path.exists(p) for _, _, p in images))
+    if not fresh:
+        os.makedirs(SYNTH_DIR, exist_ok=True)
+        if os.path.exists(stamp):
+            os.remove(stamp)
+
+        def sh(cmd):
+            p = subprocess.run(cmd, stdout=subprocess.PIPE, stderr=subprocess.STDOUT, text=True)
+            if p.returncode != 0:
+                raise RuntimeError(" ".join(cmd[:3]) + " ...: " + p.stdout[-400:])
+
+        def one(job):
+            k, a, out = job
+            obj = out[:-3] + ".o"
+            sh(["gcc", "-c", f"-DGETTIME_SLOT={k}", f"-DTEXT_ALIGN={a}", os.path.join(SYNTH_SRC, "fakevdso.S"), "-o", obj])
+            sh(["gcc"] + SYNTH_LDFLAGS + ["-Wl,-T," + os.path.join(SYNTH_SRC, "fakevdso.lds"), "-o", out, obj])
+            os.remove(obj)
+        try:
+            sh(["gcc", "-O1", "-o", loader, os.path.join(SYNTH_SRC, "loader.c")])
+            with concurrent.futures.ThreadPoolExecutor(max_workers=6) as ex:
+                list(ex.map(one, images))
+        except (RuntimeError, OSError) as e:
+            return f"synthetic vDSO images / loader do not build: {e}"
+    for k, a, p in images:
+        value, align = _elf_facts(p)
+        if value != SYNTH_TEXT_START + 16 * k or align != a:
+            return (f"{p}: built image has __vdso_clock_gettime at {value} and .text sh_addralign {align}, "
+                    f"wanted {SYNTH_TEXT_START + 16 * k:#x} and {a}")
+    if not fresh:
+        open(stamp, "w").write(h.hexdigest())
+    return loader, images
+
+
 # --------------------------------------------------------------------------- one run
 
 def parse_records(out):
@@ -192,13 +285,17 @@ def parse_records(out):
     return recs, True
 
 
-def run_probe(cfg, path, n):
-    """One exec of one binary.  Returns dict(cfg, died=None|text, ptr, have_sym, cells=[...])."""
+def run_probe(cfg, path, n, via=None):
+    """One exec of one binary.  `via` = None (kernel exec) or dict(loader=, image=path|"-", name=, slot=, align=)
+    (user-space exec through the loader; only the as-started path is run).
+    Returns dict(cfg, image, died=None|text, ptr, have_sym, cells=[...])."""
     delta = _vdso_slot_delta(path)
-    ctl = b"PCK1" + struct.pack("<IBq", n, 1 if delta is not None else 0, delta or 0)
-    res = dict(cfg=cfg, died=None, have_sym=delta is not None, ptr=None, cells=[])
+    have = 0 if delta is None else (1 if via is None else 2)
+    ctl = b"PCK1" + struct.pack("<IBq", n, have, delta or 0)
+    res = dict(cfg=cfg, image=(via["name"] if via else "kernel-vdso"), via=via, died=None, have_sym=delta is not None, ptr=None, cells=[])
+    argv = [path] if via is None else [via["loader"], path, via["image"]]
     try:
-        p = subprocess.run([path], input=ctl, stdout=subprocess.PIPE, stderr=subprocess.PIPE, timeout=RUN_TIMEOUT,
+        p = subprocess.run(argv, input=ctl, stdout=subprocess.PIPE, stderr=subprocess.PIPE, timeout=RUN_TIMEOUT,
                            env={"PATH": "/usr/bin:/bin"})
     except subprocess.TimeoutExpired:
         res["died"] = f"no exit within {RUN_TIMEOUT}s"
@@ -241,7 +338,18 @@ RULE = ("Clock identity of tiny_std::time in real executables (tiny-std `_start`
         "must read; elapsed() is turned into a reading as base+elapsed with the base a now() of the same type on the same path. A case is one reading; "
         "it is non-trivial when the kernel clock did not itself step back across it. Judged: a reading of one of the four monotonic entry points that is "
         "earlier than the kernel's CLOCK_MONOTONIC reading before it or later than the one after it is a decrease between successive readings of the monotonic clock; "
-        "Instant::elapsed() == None for an earlier reading likewise. The SystemTime cells (CLOCK_REALTIME) are recorded, not judged.")
+        "Instant::elapsed() == None for an earlier reading likewise. The SystemTime cells (CLOCK_REALTIME) are recorded, not judged. "
+        "SYNTHETIC IMAGES (enumerated): the static and static-PIE debug binaries are additionally started through a user-space exec loader that changes only AT_SYSINFO_EHDR, "
+        "once with the kernel's own image (control) and once with each of 12 vDSO-shaped images: __vdso_clock_gettime (implemented by the real system call) at "
+        "0x1000/0x1010/0x1020/0x1030 x .text sh_addralign 16/32/64, all neighbouring 16-byte slots being decoys that answer {0x7dec00kk s, 0 ns}; the as-started path of every entry point "
+        "is sampled and judged by the same kernel sandwich.")
+
+
+def _replay_of(res, ename, pname, n):
+    d = dict(cfg=res["cfg"], image=res["image"], entry=ename, path=pname, n=res.get("n", n))
+    if res.get("via"):
+        d.update(slot=res["via"].get("slot"), align=res["via"].get("align"))
+    return d
 
 
 def report_from(results, n, caps, notes, tier):
@@ -257,28 +365,37 @@ def report_from(results, n, caps, notes, tier):
 
     for res in results:
         cfg = res["cfg"]
+        via = res.get("via")
+        if via:
+            cfg = f"{cfg}/{res['image']}"
         if res["died"]:
             outcomes[f"{cfg}/run:died"] = 1
             viol("C19:vdso:probe-died", f"[{cfg}] the probe did not complete: {res['died']} ({len(res['cells'])} cells reported before)",
-                 dict(cfg=cfg, n=n))
-        else:
+                 _replay_of(res, None, None, n))
+        elif not via:
             outcomes[f"{cfg}/run:complete"] = 1
         if res["ptr"] is None:
             outcomes[f"{cfg}/vdso-pointer:unknown(no symbol)"] = 1
-        else:
+        elif not via or not res["ptr"]:
             outcomes[f"{cfg}/vdso-pointer:{'found-at-startup' if res['ptr'] else 'none-at-startup'}"] = 1
+        if via and via.get("slot") is not None and res["ptr"]:
+            want_low = (SYNTH_TEXT_START + 16 * via["slot"]) & 0xFFF
+            outcomes[f"{cfg}/vdso-pointer:{'image+st_value' if res['ptr'] & 0xFFF == want_low else 'NOT-image+st_value(low bits %#x, st_value low bits %#x)' % (res['ptr'] & 0xFFF, want_low)}"] = 1
         for c in res["cells"]:
             pname = path_name(res, c["path"])
             ename = ENTRIES[c["entry"]]
             evaluations += c["n"]
             nontrivial += c["n"] - c["back"]
             cell = f"{cfg}/{pname}/{ename}"
+            if via:
+                # one outcome line per (run, clock) instead of per entry point: the map stays readable
+                cell = f"{cfg}/{pname}/{'4 monotonic entry points' if c['entry'] < JUDGED else '2 SystemTime entry points (not judged)'}"
             for k in ("inside", "earlier", "later", "back", "none"):
                 if c[k]:
                     label = {"inside": "inside-kernel-sandwich", "earlier": "EARLIER-than-kernel-reading-before", "later": "LATER-than-kernel-reading-after",
                              "back": "kernel-clock-stepped-back(not judged)", "none": "elapsed-returned-None"}[k]
-                    outcomes[f"{cell}:{label}"] = c[k]
-            replay = dict(cfg=cfg, entry=ename, path=pname, n=n)
+                    outcomes[f"{cell}:{label}"] = outcomes.get(f"{cell}:{label}", 0) + c[k]
+            replay = _replay_of(res, ename, pname, n)
             if c["entry"] < JUDGED:
                 if c["earlier"] or c["later"]:
                     viol(f"C19:{pname}:{ename}:reading-outside-kernel-sandwich",
@@ -288,15 +405,17 @@ def report_from(results, n, caps, notes, tier):
                 if c["none"]:
                     viol(f"C19:{pname}:{ename}:none-for-past-reading",
                          f"[{cfg}, {pname} path] {ename}() of a reading taken earlier on the same path returned None {c['none']} of {c['n']} times", replay)
-            if len(samples) < 8 and cfg.endswith("debug") and c["entry"] in (0, 1, 3):
+            if len(samples) < 8 and (cfg.endswith("debug") or (via and via.get("slot") == 5 and via.get("align") == 32)) and c["entry"] in (0, 1, 3) and (not via or via.get("slot") == 5) and len([x for x in samples if x["cfg"] == cfg]) < 2:
                 samples.append(dict(cfg=cfg, entry=ename, path=pname, readings=c["n"], inside=c["inside"], earlier=c["earlier"], later=c["later"],
                                     ns_per_library_call=round(c["lib_ns"] / max(1, c["n"]), 1)))
     cells = sum(len(r["cells"]) for r in results)
     return dict(
         evaluations=evaluations, distinct_nontrivial=nontrivial, samples=samples, violations=list(violations.values()),
         outcomes=outcomes, caps_hit=caps, notes=notes, rule=RULE,
-        bounds=dict(tier=tier, readings_per_cell=n, cells=cells, configurations=[r["cfg"] for r in results], entry_points=ENTRIES,
-                    paths=["vdso", "syscall-fallback(pointer forced to None)"]),
+        bounds=dict(tier=tier, readings_per_cell=n, cells=cells, runs=len(results),
+                    configurations=sorted({r["cfg"] for r in results}, key=lambda c: [r["cfg"] for r in results].index(c)), entry_points=ENTRIES,
+                    paths=["vdso", "syscall-fallback(pointer forced to None)"],
+                    synthetic_images=sorted({r["image"] for r in results if r.get("via") and r["via"].get("slot") is not None})),
         # the cell grid is enumerated completely, the readings inside a cell are a sample
         exhaustive=False,
     )
@@ -322,7 +441,30 @@ def c19_vdso(tier="quick", seed=0, out=None, step=None, build=None, bin_path=Non
     if not usable:
         _machinery("the clock probe builds in no configuration: " + "; ".join(caps)[:1500])
     results = [run_probe(cfg, path, n) for cfg, path in usable]
+    # synthetic-image dimension
+    n_synth = N_SYNTH_THOROUGH if tier == "thorough" else N_SYNTH_QUICK
+    t_s = time.time()
+    sb = synth_build()
+    if isinstance(sb, str):
+        caps.append(sb + " -- synthetic-image dimension left out")
+    else:
+        loader, images = sb
+        for cfg, path in usable:
+            if cfg not in [f"{m}-debug" for m in SYNTH_MODES]:
+                continue
+            vias = [dict(loader=loader, image="-", name="kernel-vdso-via-loader", slot=None, align=None)]
+            vias += [dict(loader=loader, image=p, name=synth_name(k, a), slot=k, align=a) for k, a, p in images]
+            for via in vias:
+                r = run_probe(cfg, path, n_synth, via)
+                r["n"] = n_synth
+                results.append(r)
+        notes.append(f"synthetic-image dimension: {len(images)} images x {len(SYNTH_MODES)} link modes + loader-transparency controls, "
+                     f"{n_synth} readings per cell, {time.time() - t_s:.1f}s including the (cached) gcc builds")
     for r in results:
+        if r.get("via"):
+            if r["ptr"] == 0:
+                caps.append(f"{r['cfg']}/{r['image']}: start-up found no clock function in the image: cells vacuous")
+            continue
         if not r["have_sym"]:
             caps.append(f"{r['cfg']}: tiny-std's private VDSO_CLOCK_GET_TIME not found in the symbol table: fallback path not forced, path of the as-started cells unknown")
         elif r["ptr"] == 0:
@@ -332,7 +474,7 @@ def c19_vdso(tier="quick", seed=0, out=None, step=None, build=None, bin_path=Non
     notes.append("the `#[cfg(not(feature = \"vdso\"))]` readers are sandwiched the same way in h-time phase `clock` (harness build, no vdso feature)")
     notes.append("not covered: a kernel started without a vDSO (AT_SYSINFO_EHDR absent) cannot be produced cheaply; the same branch is entered by forcing the function pointer to None")
     rep = report_from(results, n, caps, notes, tier)
-    rep["bounds"].update(build_s=round(t_build, 1), run_s=round(time.time() - t0 - t_build, 1))
+    rep["bounds"].update(build_s=round(t_build, 1), run_s=round(time.time() - t0 - t_build, 1), readings_per_cell_synthetic=n_synth)
     if out:
         json.dump(rep, open(out, "w"), indent=1)
     return rep
@@ -346,9 +488,20 @@ def _replay(d, env):
     b = builds(env, [(mode, profile)])[cfg]
     if not b["ok"]:
         _machinery(f"{cfg} does not build: {b['err']}")
-    res = run_probe(cfg, b["path"], int(rp.get("n", N_QUICK)))
+    via = None
+    if rp.get("image", "kernel-vdso") != "kernel-vdso":
+        sb = synth_build()
+        if isinstance(sb, str):
+            _machinery(sb)
+        loader, images = sb
+        if rp.get("slot") is None:
+            via = dict(loader=loader, image="-", name="kernel-vdso-via-loader", slot=None, align=None)
+        else:
+            k, a = int(rp["slot"]), int(rp["align"])
+            via = dict(loader=loader, image=next(p for kk, aa, p in images if (kk, aa) == (k, a)), name=synth_name(k, a), slot=k, align=a)
+    res = run_probe(cfg, b["path"], int(rp.get("n", N_QUICK)), via)
     rep = report_from([res], int(rp.get("n", N_QUICK)), [], [], "quick")
-    print(f"replay C19 clock identity {cfg}: binary {b['path']} (built from {repo}); vDSO pointer at start-up: "
+    print(f"replay C19 clock identity {cfg} [{res['image']}]: binary {b['path']} (built from {repo}); vDSO pointer at start-up: "
           f"{'unknown' if res['ptr'] is None else hex(res['ptr'])}")
     for c in res["cells"]:
         print(f"  {path_name(res, c['path']):17s} {ENTRIES[c['entry']]:26s} n={c['n']} inside={c['inside']} earlier={c['earlier']} later={c['later']} "
